@@ -224,6 +224,10 @@ Definition c19_check (c : c19_case) : bool * bool :=
               | Ok v => skel_eqb (vskel v) k
               | _ => false
               end
+          (* a view that deserialised has a layout tree: the model's layout returns one for every valid
+             constraint (C10_layout_total through C19_total), so a missing skeleton -- View::layout under the
+             loose 5 x 20 constraint failed or panicked -- is a disagreement with the model as well *)
+          | VOk _, None => false
           | _, _ => true
           end,
        match impl with VOk ok => ok | VErr => true | VPanic => false end)
